@@ -51,7 +51,8 @@ ASSUMPTIONS = [
 ]
 TRUSTED = []
 
-OPS = ["set_m", "set_f", "set_t1", "set_all_dict", "set_all_list", "roundtrip", "refresh", "rp2xy", "xy2rp", "std_polar", "standard_complex", "trans_cart", "trans_polar", "fix_unfix", "masked_read"]
+OPS = ["set_m", "set_f", "set_t1", "set_all_dict", "set_all_list", "roundtrip", "refresh", "rp2xy", "xy2rp", "std_polar", "standard_complex", "trans_cart", "trans_polar", "fix_unfix", "masked_read",
+       "fix_unfix_t2", "fix_t2"]
 
 
 def bounds(tier):
@@ -178,6 +179,16 @@ def _apply(vm, op, k=0):
         with vm.mask_params({"m": 0.5}):
             vm.read("m")
         return set()
+    if name == "fix_unfix_t2":
+        # fix and free again a tied name that is not the head of its group (Variable.fixed() / freed() on it)
+        vm.set_fix("t2")
+        vm.set_fix("t2", unfix=True)
+        vm.user_fixed = set(getattr(vm, "user_fixed", set())) - {"t2"}  # explicitly freed again
+        return set()
+    if name == "fix_t2":
+        vm.set_fix("t2")
+        vm.user_fixed = set(getattr(vm, "user_fixed", set())) | {"t2"}
+        return set()
     raise ValueError(name)
 
 
@@ -199,7 +210,7 @@ def job_histories(ss, seqs):
                 assigned = _apply(vm, op, k_step)
                 after = {n: _val(vm, n) for n in vm.variables}
                 za = _complex_value(vm)
-                snaps.append((op, before, after, zb, za, assigned, list(vm.trainable_vars), vm.variables["t1"] is vm.variables["t2"], tv_before, bool(vm.complex_vars["c"])))
+                snaps.append((op, before, after, zb, za, assigned, list(vm.trainable_vars), vm.variables["t1"] is vm.variables["t2"], tv_before, bool(vm.complex_vars["c"]), sorted(getattr(vm, "user_fixed", set()))))
             return vm, snaps
 
         ex = fork.Explorer(max_paths=16, max_depth=12, timeout_s=10, total_s=300)
@@ -212,7 +223,7 @@ def job_histories(ss, seqs):
             vm, snaps = path.result
             F = list(path.ctx.facts) + list(path.pc)
             pay = lambda m, seq=seq: dict(kind="history", seq=[OPS[o] for o in seq], model={k: float(v) for k, v in m.items() if not k.startswith(("sqrt#", "uf_"))})
-            for step, (op, before, after, zb, za, assigned, tv, tied, tv_before, polar_now) in enumerate(snaps):
+            for step, (op, before, after, zb, za, assigned, tv, tied, tv_before, polar_now, fixed_now) in enumerate(snaps):
                 states += 1
                 transitions += 1
                 nm = OPS[op]
@@ -229,6 +240,9 @@ def job_histories(ss, seqs):
                         ss.prove("vm.untouched[%s,%s]" % (stag, n), F, far(after[n], before[n], 0), key="vm.untouched." + nm, payload=pay, timeout=30)
                 # I2 / I3 structure of the free list
                 ok = tied and len(set(tv)) == len(tv) and all(n in vm.variables for n in tv) and sum(1 for n in tv if n in ("t1", "t2")) <= 1 and "f" not in tv
+                # a name the user fixed is not varied through another name tied to it
+                for fx in fixed_now:
+                    ok = ok and not any(vm.variables[n] is vm.variables[fx] for n in tv)
                 ss.concrete("vm.free_list[%s]" % stag, ok, key="vm.free_list." + nm, payload=dict(kind="history", seq=[OPS[o] for o in seq]),
                             describe="tied names share one variable and count once; no duplicates; only existing names; fixed names absent")
                 # I5 complex value preserved by every step that does not assign it
